@@ -179,14 +179,19 @@ const SYM_OFF: usize = 228;
 const SH_OFF: usize = 276;
 const SEG1_VADDR: u32 = 0x00;
 const SEG1_FILESZ: u32 = 16;
-const SEG1_MEMSZ: u32 = 24;
-const SEG2_VADDR: u32 = 0x40;
 const SEG2_FILESZ: u32 = 8;
 const GOT_ADDR: u32 = 0x08;
 
 /// Builds the image.  `variant` 0: program headers [LOAD, NOTE, LOAD]; 1: [LOAD, LOAD, NOTE]
 /// (a non-load header last: the image end is the highest PT_LOAD extent, not the last header's).
-fn build(variant: u8, seg1: &[u8; 16], seg2: &[u8; 8], exit_value: u32, seg2_memsz: u32, stack_size: u32, omit: u8) {
+/// `variant` 2: the second segment starts exactly where the first one (and `.got`, which is flush with its end) stops.
+fn layout(variant: u8) -> (u32, u32) {
+    // (memory size of segment 1, virtual address of segment 2)
+    if variant == 2 { (16, 0x10) } else { (24, 0x40) }
+}
+
+fn build(variant: u8, seg1: &[u8; 16], seg2: &[u8; 8], exit_value: u32, seg2_memsz: u32, stack_size: u32, omit: u8, exit_idx: u8) {
+    let (seg1_memsz, seg2_vaddr) = layout(variant);
     unsafe {
         IMG = [0; IMG_MAX];
         IMG_LEN = IMG_FILE;
@@ -210,9 +215,9 @@ fn build(variant: u8, seg1: &[u8; 16], seg2: &[u8; 8], exit_value: u32, seg2_mem
     p16(46, 40);
     p16(48, 6);
     p16(50, 3); // e_shstrndx
-    let (o1, o2, o3) = if variant == 0 { (52, 116, 84) } else { (52, 84, 116) };
-    phdr(o1, 1, SEG1_OFF as u32, SEG1_VADDR, SEG1_FILESZ, SEG1_MEMSZ);
-    phdr(o2, 1, SEG2_OFF as u32, SEG2_VADDR, SEG2_FILESZ, seg2_memsz);
+    let (o1, o2, o3) = if variant != 1 { (52, 116, 84) } else { (52, 84, 116) };
+    phdr(o1, 1, SEG1_OFF as u32, SEG1_VADDR, SEG1_FILESZ, seg1_memsz);
+    phdr(o2, 1, SEG2_OFF as u32, seg2_vaddr, SEG2_FILESZ, seg2_memsz);
     phdr(o3, 4, SHSTR_OFF as u32, 0, 0, 0); // PT_NOTE, empty
     pstr(SEG1_OFF, seg1);
     pstr(SEG2_OFF, seg2);
@@ -224,10 +229,12 @@ fn build(variant: u8, seg1: &[u8; 16], seg2: &[u8; 8], exit_value: u32, seg2_mem
     pstr(SHSTR_OFF + 29, b".shstrtab\0");
     pstr(STR_OFF, b"\0main\0___exit\0");
     // symbols: [null], main, ___exit
-    p32(SYM_OFF + 16, 1);
-    p32(SYM_OFF + 20, 0x10);
-    p32(SYM_OFF + 32, 6);
-    p32(SYM_OFF + 36, exit_value);
+    // slot of each symbol in the table: ___exit at index `exit_idx`, the null symbol and `main` in the other two
+    let (slot_main, slot_exit) = if exit_idx == 0 { (2, 0) } else if exit_idx == 1 { (2, 1) } else { (1, 2) };
+    p32(SYM_OFF + 16 * slot_main, 1);
+    p32(SYM_OFF + 16 * slot_main + 4, 0x10);
+    p32(SYM_OFF + 16 * slot_exit, 6);
+    p32(SYM_OFF + 16 * slot_exit + 4, exit_value);
     // sections (shuffled order): null, .symtab, .got, .shstrtab, .stack, .strtab
     shdr(SH_OFF + 40, 13, 2, 0, SYM_OFF as u32, 48, 5, 16);
     shdr(SH_OFF + 80, 1, 1, GOT_ADDR, (SEG1_OFF as u32) + GOT_ADDR, 8, 0, 4);
@@ -255,7 +262,7 @@ fn dram32(cpu: &Cpu, addr: u32) -> u32 {
 pub const ARG_MAX: usize = 4;
 
 pub fn load_skeleton<S: Src>(s: &mut S, variant: u8, env_aspects: bool) {
-    load_skeleton_args(s, variant, env_aspects, None, 16, 0x1003, 0)
+    load_skeleton_args(s, variant, env_aspects, None, 16, 0x1003, 0, 2)
 }
 
 pub const ARGS0: &[u8] = b"";
@@ -265,7 +272,8 @@ pub const ARGS2: &[u8] = b" ab";
 /// `fixed`: the argument string as a call-site constant (at most ARG_MAX bytes).  With a symbolic
 /// argument string the addresses of the argument block become symbolic (word lengths), i.e. symbolic-index
 /// writes into the 2 MiB DRAM array, which CBMC cannot encode (C09).
-pub fn load_skeleton_args<S: Src>(s: &mut S, variant: u8, env_aspects: bool, fixed: Option<&'static [u8]>, seg2_memsz: u32, stack_size: u32, omit: u8) {
+pub fn load_skeleton_args<S: Src>(s: &mut S, variant: u8, env_aspects: bool, fixed: Option<&'static [u8]>, seg2_memsz: u32, stack_size: u32, omit: u8, exit_idx: u8) {
+    let (_seg1_memsz, seg2_vaddr) = layout(variant);
     let mut seg1 = [0u8; 16];
     let mut seg2 = [0u8; 8];
     let mut i = 0;
@@ -307,7 +315,7 @@ pub fn load_skeleton_args<S: Src>(s: &mut S, variant: u8, env_aspects: bool, fix
     // every 32-bit GOT entry value: the relocated value is the sum modulo 2^32; the ___exit value is an address
     // inside the image in every generated file (no wrap past 2^32)
     s.assume(exit_value <= 0xffffffff - BASE);
-    build(variant, &seg1, &seg2, exit_value, seg2_memsz, stack_size, omit);
+    build(variant, &seg1, &seg2, exit_value, seg2_memsz, stack_size, omit, exit_idx);
     let mut args = String::new();
     match fixed {
         Some(t) => {
@@ -365,7 +373,7 @@ pub fn load_skeleton_args<S: Src>(s: &mut S, variant: u8, env_aspects: bool, fix
         if dram(&cpu, BASE + SEG1_VADDR + i as u32) != seg1[i] {
             ok_segments = false;
         }
-        if dram(&cpu, BASE + SEG2_VADDR + i as u32) != seg2[i] {
+        if dram(&cpu, BASE + seg2_vaddr + i as u32) != seg2[i] {
             ok_segments = false;
         }
         i += 1;
@@ -373,7 +381,10 @@ pub fn load_skeleton_args<S: Src>(s: &mut S, variant: u8, env_aspects: bool, fix
     let mut ok_zero = true;
     // image bytes not covered by file contents (bss of both segments, the gap between them) and the
     // bytes just outside the image read as zero (enumerated probes: DRAM cannot be probed symbolically)
-    const ZERO_PROBES: [u32; 12] = [0x10, 0x11, 0x17, 0x18, 0x20, 0x3f, 0x48, 0x49, 0x4f, 0x50, 0x51, 0x60];
+    const ZERO_PROBES_GAP: [u32; 12] = [0x10, 0x11, 0x17, 0x18, 0x20, 0x3f, 0x48, 0x49, 0x4f, 0x50, 0x51, 0x60];
+    const ZERO_PROBES_ADJ: [u32; 12] = [0x18, 0x19, 0x1f, 0x20, 0x21, 0x22, 0x30, 0x3f, 0x40, 0x48, 0x50, 0x60];
+    #[allow(non_snake_case)]
+    let ZERO_PROBES = if variant == 2 { ZERO_PROBES_ADJ } else { ZERO_PROBES_GAP };
     i = 0;
     while i < 12 {
         if dram(&cpu, BASE + ZERO_PROBES[i]) != 0 {
@@ -388,7 +399,7 @@ pub fn load_skeleton_args<S: Src>(s: &mut S, variant: u8, env_aspects: bool, fix
     let ok_outside = cpu.bus.memory[0] == 0 && cpu.bus.memory[0x1000] == 0 && cpu.bus.exception_handling_vector[0] == 0 && cpu.bus.io_registrs1[0x20] == 0;
 
     // ---- C12: process environment
-    let image_end = BASE + SEG2_VADDR + seg2_memsz; // highest PT_LOAD extent
+    let image_end = BASE + seg2_vaddr + seg2_memsz; // highest PT_LOAD extent
     let stack_end = (image_end + stack_size + 3) & !3;
     let ok_entry = cpu.er[2] == BASE && cpu.er[5] == BASE + GOT_ADDR;
     let ok_sp = cpu.er[7] == stack_end - 8 && cpu.er[7] & 3 == 0;
